@@ -108,6 +108,9 @@ type params struct {
 	Chunk    int
 	PauseUS  int
 	Yield    bool
+	// CtxFields: the FieldsFromContext hook hands every event the same request-scoped slice, which
+	// has spare capacity (built with append, as such slices are); CtxString likewise a shared string
+	CtxFields bool
 }
 
 func (p params) key() string { return fmt.Sprintf("%+v", p) }
@@ -134,6 +137,7 @@ func genParams(t *rapid.T) params {
 	p.Chunk = rapid.SampledFrom([]int{0, 1, 7, 64, 512}).Draw(t, "chunk")
 	p.PauseUS = rapid.SampledFrom([]int{0, 0, 1, 20, 200}).Draw(t, "pauseUS")
 	p.Yield = rapid.Bool().Draw(t, "yield")
+	p.CtxFields = rapid.Bool().Draw(t, "ctxFields")
 	return p
 }
 
@@ -316,6 +320,13 @@ func runCase(p params, dir string) error {
 		return fixedTime
 	}
 	defer func() { log.TimeNow = nil }()
+	if p.CtxFields {
+		shared := make([]log.Field, 0, 32) // room for more than one call's fields
+		shared = append(shared, log.String("req", "r-1"), log.Int("uid", 7))
+		log.FieldsFromContext = func(context.Context) []log.Field { return shared }
+		log.StringFromContext = func(context.Context) string { return "trace-0001" }
+		defer func() { log.FieldsFromContext, log.StringFromContext = nil, nil }()
+	}
 	if p.Path != "builtin" {
 		if err := log.Refresh(p.config(dir)); err != nil {
 			return fmt.Errorf("VERIF-INCONCLUSIVE: Refresh failed: %v", err)
